@@ -53,6 +53,17 @@ CHECKS = {
    note="bounded: streams of <= 2 documents up to 10/11 events exhaustively, random streams of <= 3 documents beyond; the events "
         "threshold is not exercised for the streaming iterator (the stream-end marker is counted against the last document); " + TRUST,
    technique="TLA+ model (Budget.tla, MC_Budget.tla) checked by TLC + TLC trace validation of recorded budgeted calls against Budget!Usage / FirstExceeded"),
+ "C11": dict(
+   category="model_checking",
+   text="Stream.tla gives the declarative meaning of a stream as the list of its documents (null/empty skipped, type errors "
+        "are items, a scanner failure ends the list, any second document makes single-document entry points fail) and MC_Stream "
+        "checks operational models of ReadIter::next (peek / null skip / deserialize / skip_to_next_document / finished) and of "
+        "from_multiple against it for every kind sequence up to a bound, including termination under fairness; every text is "
+        "then run through all batch, iterator and single-document entry points and decided by the TLA+ trace validator.",
+   design_ref="DESIGN.md section 4 C11",
+   note="bounded: all sequences of <= 3 (quick) / 4 (thorough) kinds over 11 document kinds x marker/comment variants, random longer "
+        "streams; whether the iterator ends or goes on after an unknown-alias error is not prescribed (both admissible); " + TRUST,
+   technique="TLA+ model (Stream.tla, MC_Stream.tla incl. liveness) checked by TLC + TLC trace validation of recorded entry-point results"),
 }
 
 NOT_YET = "check not built yet (work in progress); it will be claimed once its TLA+ model and conformance harness are registered"
